@@ -153,4 +153,6 @@ add("C20", "other",
     "Proved: circshift_fourier multiplies the filter by exp(-2 pi i (shift mod D)((start+k) mod D)/D) with D defaulted to len+start, every operand "
     "defined on every path, copy=True never storing into the input and copy=False/complex128 writing through; hertz_to_angular / angular_to_hertz "
     "are mutual inverses; the Bartlett / Blackman / Hamming / Hann windows return exactly `width` samples equal to the numpy shape divided by "
-    "gain * max(1, width - 1). GammaWindow, the sums of the windows and gauss_quant accuracy/monotonicity are bounded." + MIX, TB)
+    "gain * max(1, width - 1); GammaWindow returns exactly `width` non-negative samples, sample i being t^(n-1) exp(-a t + n ln a - ln (n-1)!) at "
+    "t = width-1-i with a = (n-1)/(width - peak*width) (n >= 2) or 5/width (n = 1), over uninterpreted exp / log / power (0 <= peak < 1 assumed). "
+    "The position of GammaWindow's maximum, the sums of the windows and gauss_quant accuracy/monotonicity are bounded." + MIX, TB)
